@@ -8,7 +8,8 @@ import random
 from typing import Dict, List, Optional, Tuple
 
 from ..framework import Check
-from ..defs_common import FAM, run_impl, regen_or_report, native_names
+from ..defs_common import FAM, run_impl, native_names
+from ..defs_reg_common import regen_cone
 from ..defs_reg_common import (new_file, rel_import, to_case, coq_closure, impl_flat, with_core, is_core_name,
                                file_yaml, REG_HEADER, MISSING, EXC_CODE)
 
@@ -571,13 +572,23 @@ def multipath(cl: dict) -> bool:
 
 def run(chk: Check):
     rng = random.Random(chk.seed)
-    if not regen_or_report(chk):
-        return
-    chk.prove(FAM, "Props.C12", THEOREMS, extra_targets=["Model/Registry.vo"])
+    regen_cone(chk, ("Guards.v", "TypeTables.v"))
+    proved = chk.prove(FAM, "Props.C12", THEOREMS, extra_targets=["Model/Registry.vo"])
+    if proved and chk.tier == "thorough":
+        okc, outc = FAM.coqchk("Props.C12")
+        chk.cov["coqchk"] = outc[-1500:]
+        if not okc:
+            chk.broken_obligation("coqchk rejected Props.C12", outc[-600:])
     from ..translate import guards_defs
     import re
-    gv = guards_defs.render()
-    maxmt = int(re.search(r"max_message_types : Z := \((\d+)\)", gv).group(1))
+    try:
+        gv = guards_defs.render()
+    except Exception:                       # already reported by regen_cone; the oracle keeps the last good value
+        from ..framework import COQ
+        g = COQ / "defs" / "Gen" / "Guards.v"
+        gv = g.read_text() if g.exists() else ""
+    mm = re.search(r"max_message_types : Z := \((\d+)\)", gv)
+    maxmt = int(mm.group(1)) if mm else 10000
     natives = [n for l in native_names().values() for n in l]
 
     gen = gen_cases(rng, chk.tier)
